@@ -119,6 +119,8 @@ func main() {
 		os.Exit(cmdBaseline(os.Args[2:]))
 	case "callees":
 		cmdCallees(os.Args[2:])
+	case "edges":
+		cmdEdges(os.Args[2:])
 	default:
 		fmt.Fprintln(os.Stderr, "unknown command")
 		os.Exit(2)
@@ -192,6 +194,9 @@ func cmdRun(args []string) {
 	sort.SliceStable(res, func(i, j int) bool { return res[i].Obl.Name < res[j].Obl.Name })
 	for _, r := range res {
 		counts[r.Status]++
+		if r.Status == "discharged" && os.Getenv("GOVC_LIST") != "" {
+			fmt.Printf("ok         %s [%s %.2fs]\n", strings.TrimPrefix(r.Obl.Name, modulePath), r.Solver, r.Seconds)
+		}
 		if r.Status != "discharged" {
 			fmt.Printf("%-10s %s  [%s %.2fs] %s:%d %s\n", r.Status, strings.TrimPrefix(r.Obl.Name, modulePath), r.Solver, r.Seconds, strings.TrimPrefix(r.Obl.Pos.Filename, "/repo/"), r.Obl.Pos.Line, firstLines(nonModel(r.Output), 2))
 			if *showModel && r.Model != "" {
@@ -381,4 +386,81 @@ func cmdCallees(args []string) {
 			visit(k, 0)
 		}
 	}
+}
+
+// cmdEdges lists CFG edges that are infeasible under the assumed contracts (candidates for hidden inconsistencies).
+func cmdEdges(args []string) {
+	w, err := loadWorld("/repo", []string{"/verif/stubs"})
+	if err != nil {
+		fmt.Println(err)
+		return
+	}
+	re := regexp.MustCompile(args[0])
+	var obls []*Obl
+	for _, key := range sortedKeys(w.funcs) {
+		if !inScope(key) || !re.MatchString(key) || w.cs.Funcs[key] == nil || w.cs.Funcs[key].Trusted {
+			continue
+		}
+		fn := w.funcs[key]
+		if len(fn.Blocks) == 0 {
+			continue
+		}
+		e := newEnc(w, fn)
+		e.noPanics = true
+		e.analyseCFG()
+		e.analyseAllocs()
+		e.compSort = map[string]string{}
+		e.reset()
+		e.pass = 1
+		func() {
+			defer func() { recover() }()
+			e.encode()
+			for _, li := range e.loopList {
+				li.mods = map[string]bool{}
+				li.genMods = map[string]bool{}
+				li.targets = map[string][]ssa.Value{}
+				for b := range li.body {
+					for k := range e.writes[b] {
+						li.mods[k] = true
+					}
+					for k := range e.genWrites[b] {
+						li.genMods[k] = true
+					}
+					if e.havocs[b] {
+						li.all = true
+					}
+				}
+			}
+			cs := e.compSort
+			e.reset()
+			for k, v := range cs {
+				e.compSort[k] = v
+			}
+			e.pass = 2
+			e.encode()
+		}()
+		for k, cond := range e.edgeCond {
+			obls = append(obls, &Obl{Fn: key, Name: fmt.Sprintf("%s#edge:b%d->b%d", key, k[0], k[1]), Kind: "cover", NAssert: len(e.asserts), Guard: cond, Goal: "false", enc: e})
+		}
+	}
+	res := solveAll(w, obls, "quick", 12, "")
+	n := 0
+	for _, r := range res {
+		if r.Status == "discharged" {
+			n++
+			e := r.Obl.enc
+			var from, to int
+			fmt.Sscanf(r.Obl.Name[strings.Index(r.Obl.Name, "#edge:b")+7:], "%d->b%d", &from, &to)
+			pos := ""
+			if from < len(e.fn.Blocks) && len(e.fn.Blocks[from].Instrs) > 0 {
+				last := e.fn.Blocks[from].Instrs[len(e.fn.Blocks[from].Instrs)-1]
+				pos = w.fset.Position(last.Pos()).String()
+				if iff, ok := last.(*ssa.If); ok {
+					pos = w.fset.Position(iff.Cond.Pos()).String() + " cond=" + iff.Cond.String()
+				}
+			}
+			fmt.Printf("INFEASIBLE %s  (%s)\n", strings.TrimPrefix(r.Obl.Name, modulePath), strings.TrimPrefix(pos, "/repo/"))
+		}
+	}
+	fmt.Printf("%d edges, %d infeasible\n", len(res), n)
 }
